@@ -18,4 +18,8 @@ def jobs(tier, ctx):
                         cuts=['yyerror'], nobody_ok=['*'], targets=['add_local_name', 'pop_n_locals'], timeout=300, mem_gb=6, opt_witness=['too_many_locals_reported', 'deepest_level', 'end'],
                         desc='%d sibling block(s) each declaring 2 locals with 2 locals allowed in total: further declarations are rejected, no write outside the tables' % (sib + 1),
                         inputs='(concrete script)', assumptions=['block exit = pop_n_locals of the block locals, as the grammar does']))
+    out.append(dict(name='lexer_end', srcs=['@harness/C02/lexer_end.c'], stubs=['@world/world_base.c', '@world/libc_models.c', '@world/world_err.c'], unwind=5, nobody_ok=['*'],
+                    targets=['end_new_file'], timeout=300, mem_gb=6, opt_witness=['open_conditionals', 'open_includes'],
+                    desc='end_new_file() from a lexer left with 0..2 open #include files, 0..3 open #if levels and an extra line buffer: no include, no conditional level and no extra line buffer survives into the next compilation',
+                    inputs='numbers of open includes / conditionals / line buffers, conditional states', assumptions=['#define table release (free_defines) is outside this job']))
     return out
